@@ -277,10 +277,10 @@ def dt_weaver(ctx, rule: str, wm, methods):
     from .. import dtypes
     n = 0
     for m in methods:
-        mf = wm.methods.get(m)
-        if mf is None:
+        if wm.methods.get(m) is None:
             continue
-        n += dtypes.check_events(ctx, mf.ev, rule, f"Weaver.{m}", mf.fi)
+        for label, mf in wm.variants_of(m):
+            n += dtypes.check_events(ctx, mf.ev, rule, f"Weaver.{m}" + (f"[{label}]" if label else ''), mf.fi)
     return n
 
 
